@@ -226,7 +226,7 @@ Ret == /\ IsEv("ret")
                     \cup (IF ~ev.fresh THEN {"C02.FreshProcessDecrypts"} ELSE {})
                     \cup (IF ev.drkLive > 0 THEN {"C09.DataKeyReleasedBeforeReturn"} ELSE {})
                     \cup (IF ~o.sfault /\ ExpiredAt(c, t) THEN {"C04.NoExpiredIK"} ELSE {})
-                    \cup (IF ~o.sfault /\ ikr # {} /\ ExpiredAt(par0 + R, t)
+                    \cup (IF ~o.sfault /\ sft[ev.p] < par0 + E /\ ikr # {} /\ ExpiredAt(par0 + R, t)
                           THEN {IF dref THEN "C04.ParentExpiryBounded/decrypt-refresh" ELSE "C04.ParentExpiryBounded"} ELSE {})
                     \cup (IF o.faults = 0 /\ Stamp(t) > c /\ \E tr \in RevTimes(ev.ikid, c) : t > tr + R /\ sft[ev.p] < tr THEN {"C05.RevokedIKBounded"} ELSE {})
                     \cup (IF o.faults = 0 /\ ikr # {} /\ Stamp(t) > c /\ Stamp(t) > par0 /\ \E tr \in RevTimes(skid, par0) : t > tr + 2 * R /\ sft[ev.p] < tr
